@@ -54,6 +54,7 @@ type runner struct {
 	c         *core.Ctx
 	nEvents   int
 	nRandom   int // batches of the random family; batches after these walk the metrics matrix
+	nBase     int // random + metrics-matrix batches; batches after these are the extension families
 	mu        sync.Mutex
 	confirmed map[string]int
 	sigs      map[string]int // every refuting observation by signature (listed or not)
@@ -80,12 +81,37 @@ func (r *runner) genBatch(b int) []*testCase {
 			class = "hostile"
 		}
 		var shape *metricsShape
-		if b >= r.nRandom { // metrics matrix family: every cell in turn
+		if b >= r.nRandom && b < r.nBase { // metrics matrix family: every cell in turn
 			shape = &metricsMatrix[((b-r.nRandom)*casesPerBatch+i)%len(metricsMatrix)]
 		}
-		cases = append(cases, genCase(rng, b*casesPerBatch+i, class, r.nEvents, aux, shape))
+		ext := ""
+		if b >= r.nBase { // extension batches: long mask lists / do_if + parallel pass / parallel pass over ordinary cases
+			ext = extFamilies[(b-r.nBase)%len(extFamilies)]
+		}
+		tc := genCase(rng, b*casesPerBatch+i, class, r.nEvents, aux, shape, strings.TrimPrefix(ext, "par-"))
+		if strings.HasPrefix(ext, "par-") {
+			tc.Par = parRounds
+		}
+		tc.Class += ext2class(ext)
+		cases = append(cases, tc)
 	}
 	return cases
+}
+
+// extension batches (after the random and the metrics-matrix batches, so the
+// cases of those keep their seeds): "par-" = with the parallel pass
+var extFamilies = []string{"longlist", "par-doif", "par-"}
+
+const parRounds = 16
+
+func ext2class(ext string) string {
+	switch ext {
+	case "longlist":
+		return "+longlist"
+	case "par-doif":
+		return "+doif"
+	}
+	return ""
 }
 
 func parseLines(res *core.ChildResult) []childLine {
@@ -117,13 +143,19 @@ func (r *runner) runBatch(b int) {
 	startCase, startEv := 0, 0
 	restarts := 0
 	crashesInCase := map[int]int{}
+	seqOut := map[int]map[int]string{} // case -> event -> output of the single-processor pass
 	for startCase < len(cases) {
-		res := core.RunChild("mask", childIn{Cases: cases, StartCase: startCase, StartEvent: startEv}, core.ChildOpt{Timeout: 10 * time.Minute, GOMAXPROCS: 2})
+		gmp := 2
+		if b >= r.nBase {
+			gmp = 4 // 8 processors in the parallel pass
+		}
+		res := core.RunChild("mask", childIn{Cases: cases, StartCase: startCase, StartEvent: startEv}, core.ChildOpt{Timeout: 10 * time.Minute, GOMAXPROCS: gmp})
 		lines := parseLines(res)
 		c.Count("child_runs", 1)
 		c.Count("child_wall_ms_total", int64(res.WallS*1000))
 		var pending *childLine // cmd without res
 		lastStart := -1
+		pendingPar := -1 // parcmd without par
 		done := false
 		for i := range lines {
 			l := &lines[i]
@@ -131,6 +163,11 @@ func (r *runner) runBatch(b int) {
 			case "start":
 				lastStart = l.Case
 				pending = nil
+			case "parcmd":
+				pendingPar = l.Case
+			case "par":
+				pendingPar = -1
+				r.checkPar(cases[l.Case], seqOut[l.Case], l)
 			case "cmd":
 				pending = l
 			case "res":
@@ -141,6 +178,12 @@ func (r *runner) runBatch(b int) {
 					continue
 				}
 				c.Count("child_event_us_total", l.Us)
+				if !l.Timeout && l.TooBig == 0 {
+					if seqOut[l.Case] == nil {
+						seqOut[l.Case] = map[int]string{}
+					}
+					seqOut[l.Case][l.Ev] = l.Out
+				}
 				t0 := time.Now()
 				r.checkEvent(cases[l.Case], checkers[l.Case], l)
 				c.Count("oracle_us_total", time.Since(t0).Microseconds())
@@ -162,6 +205,13 @@ func (r *runner) runBatch(b int) {
 		}
 		// abnormal end: attribute to the last logged command
 		switch {
+		case pendingPar >= 0:
+			msg, site := core.PanicSite(res.Stderr)
+			tc := cases[pendingPar]
+			r.violation("parallel pass: process died while several processors ran the plugin: "+core.Trunc(core.NormalizeMsg(msg), 80)+"@"+siteNoLine(site),
+				"the single-processor pass over the same events went through; with GOMAXPROCS*2 processors (one plugin instance each, started from the same config pointer) the process died",
+				map[string]any{"config": tc.Config, "events": tc.Events, "stderr_tail": core.Trunc(res.Stderr, 1500)})
+			startCase, startEv = pendingPar+1, 0
 		case pending != nil:
 			r.crash(cases[pending.Case], checkers[pending.Case], pending.Case, pending.Ev, cases, res)
 			crashesInCase[pending.Case]++
@@ -180,10 +230,59 @@ func (r *runner) runBatch(b int) {
 			msg, site := core.PanicSite(res.Stderr)
 			c.Inconclusive("child died outside an event: " + core.Trunc(core.NormalizeMsg(msg), 100) + "@" + siteNoLine(site))
 			c.Count("died_outside_event", 1)
+			if os.Getenv("VERIF_C17_DEBUG") != "" {
+				fmt.Fprintln(os.Stderr, "DIED OUTSIDE EVENT:", res.Stderr[max(0, len(res.Stderr)-1200):])
+			}
 			startCase, startEv = lastStart+1, 0
 		default:
 			c.Inconclusive("child died before the first case: " + core.Trunc(res.Stderr, 200))
 			return
+		}
+	}
+}
+
+// checkPar: every output of the parallel pass must be byte-identical to what
+// the single-processor pipeline (judged by the model) produced for the same
+// event - the plugin's result is a function of the event and the
+// configuration, not of which instance ran it or what the others were doing.
+func (r *runner) checkPar(tc *testCase, seq map[int]string, l *childLine) {
+	c := r.c
+	c.Count("parallel_cases", 1)
+	if l.Timeout {
+		c.Inconclusive("parallel pass: not every event reached the output within 2 min")
+	}
+	if l.Err != "" {
+		r.violation("parallel pass: event delivered twice", l.Err, map[string]any{"config": tc.Config})
+	}
+	n := len(tc.Events)
+	reported := false
+	for idx, out := range l.Outs {
+		want, ok := seq[idx%n]
+		if !ok || out == "" || want == "" {
+			c.Count("parallel_events_without_reference", 1)
+			continue
+		}
+		c.Eval(1)
+		c.Count("parallel_events_compared", 1)
+		if tc.Config.hasDoIf() {
+			c.Count("parallel_events_compared_do_if", 1)
+		}
+		if out == want {
+			c.Count("parallel_events_identical_to_sequential", 1)
+			continue
+		}
+		if len(out) >= outputCap {
+			continue
+		}
+		c.Count("parallel_events_different", 1)
+		if !reported {
+			reported = true
+			kind := "parallel pass: output differs from the single-processor pipeline"
+			if tc.Config.hasDoIf() {
+				kind += " (masks with do_if)"
+			}
+			r.violation(kind, fmt.Sprintf("with %d processors (one plugin instance each, started from the same config pointer) event %d (round %d) came out differently than from the single-processor pipeline", l.Procs, idx%n, idx/n),
+				map[string]any{"config": tc.Config, "event": tc.Events[idx%n], "sequential_out": want, "parallel_out": out})
 		}
 	}
 }
@@ -380,8 +479,22 @@ func (r *runner) evidence(tc *testCase, ck *checker, ex *eventExpect, l *childLi
 			mc := &cfg.Masks[s.Mask]
 			c.Count("pairs_mask_x_leaf", 1)
 			_, kind := ck.m.governing(s.Mask)
+			ownList := s.Mask >= 64 && (len(mc.IgnoreFields) > 0 || len(mc.ProcessFields) > 0)
+			if mc.DoIf != nil && !s.DoIfOff && s.Applied {
+				c.Count("pair_do_if_on_applied", 1)
+			}
+			if ownList && s.Applied {
+				c.Count("pair_own_list_mask_index_64_or_more_applied", 1)
+			}
 			switch {
+			case s.DoIfOff:
+				c.Count("pair_do_if_off", 1)
+				c.Nontrivial("do_if-off|" + fmt.Sprint(len(le.Path)))
+				continue
 			case !s.Selected:
+				if ownList {
+					c.Count("pair_own_list_mask_index_64_or_more_not_selected", 1)
+				}
 				c.Count("pair_not_selected_by_field_lists", 1)
 				c.Count("pair_not_selected_"+kind, 1)
 				c.Nontrivial("skip|" + kind + "|" + fmt.Sprint(len(le.Path)))
@@ -491,19 +604,28 @@ func main() {
 		r.nRandom = nCases / casesPerBatch
 		// metrics matrix family: 18 cells x 8 (quick) / x 64 (thorough) cases
 		nMatrix := c.N(144, 1152)
-		nBatches := r.nRandom + nMatrix/casesPerBatch
-		core.ParallelFor(nBatches, 24, r.runBatch)
+		r.nBase = r.nRandom + nMatrix/casesPerBatch
+		// extension batches: 3 families x 2 (quick) / x 16 (thorough) batches of 24 cases
+		nExt := c.N(6, 48)
+		nBatches := r.nBase + nExt
+		core.ParallelFor(r.nBase, 24, r.runBatch)
+		// the parallel passes want real parallelism inside each child (GOMAXPROCS 4)
+		core.ParallelFor(nExt, 4, func(i int) { r.runBatch(r.nBase + i) })
+		_ = nBatches
 
 		c.Extra("refuting_observations_by_signature", r.sigs)
 		c.Extra("cases", nCases+nMatrix)
 		c.Extra("cases_metrics_matrix", nMatrix)
+		c.Extra("cases_extension_families", map[string]any{"families": extFamilies, "cases": nExt * casesPerBatch, "parallel_rounds": parRounds,
+			"what": "longlist: 61-72 never-matching filler masks before three generated masks that each have a process/ignore list of their own (mask indices around and beyond 64), judged by the model; par-doif: masks with do_if (equal on the top-level field dk; events with dk on/off/ON/'on '/1/absent) judged by the model in the single-processor pass, then the same events 16 times over through a pipeline with 8 processors (4 feeders, 12 sources), every output byte-identical to the single-processor one; par-: the parallel pass over ordinary cases"})
 		c.Extra("events_per_case", r.nEvents)
 		// a run that did not observe the behaviours it is about decides nothing
 		need := []string{"events_with_a_match", "events_without_match", "leaves_rewritten", "pair_mode_mask_unlimited", "pair_mode_mask_max_count",
 			"pair_mode_replace_word", "pair_mode_cut", "pair_not_selected_by_field_lists", "pair_match_rules_reject", "pair_selected_text_multibyte",
 			"pair_selection_touches_value_end", "events_with_applied_mark_checked", "events_with_metric_delta", "leaves_number_rewritten", "pair_rules_only_applied",
 			"mask_counter_moved_checked", "mask_counter_moved_with_label_checked", "mask_counter_moved_while_plugin_metric_off",
-			"mask_counter_quiet_while_another_mask_applied", "events_applied_plugin_metric_off", "events_applied_plugin_metric_custom", "events_applied_plugin_metric_default"}
+			"mask_counter_quiet_while_another_mask_applied", "events_applied_plugin_metric_off", "events_applied_plugin_metric_custom", "events_applied_plugin_metric_default",
+			"parallel_events_compared", "parallel_events_compared_do_if", "pair_do_if_off", "pair_do_if_on_applied", "pair_own_list_mask_index_64_or_more_applied", "pair_own_list_mask_index_64_or_more_not_selected"}
 		for _, cell := range metricsMatrix { // every cell of the metrics matrix, with and without a match
 			need = append(need, "metrics_cell_applied|"+cell.String(), "metrics_cell_not_applied|"+cell.String())
 		}
@@ -563,7 +685,7 @@ func probe(arg string) {
 			return
 		}
 		msg, site := core.PanicSite(res.Stderr)
-		fmt.Printf("event %d: in  %s\n         PROCESS DIED: %s @%s\n", next-1, tc.Events[next-1], msg, site)
+		fmt.Printf("event %d: in  %s\n         PROCESS DIED: %s @%s\n%s\n", next-1, tc.Events[next-1], msg, site, core.Trunc(res.Stderr, 1500))
 		start = next
 	}
 }
